@@ -4,3 +4,5 @@ import Fc.Families
 import Fc.Groups
 import Fc.Case
 import Fc.Text
+import Fc.Monitors
+import Fc.Holds
